@@ -539,8 +539,22 @@ def key_parse(shape_name, shape):
             def h(ex, st, c, a):
                 k = st.ghost.get('made_' + prefix, 0)
                 st.ghost['made_' + prefix] = k + 1
+                if cls in (KEY, UID):
+                    st.heap[('%s%d' % (prefix, k), '_signatures')] = ex.new_list(st, [])       # what the constructor leaves: no signature yet
                 return [(st, E.VObj(cls, '%s%d' % (prefix, k)))]
             return h
+        r.set('self', '_signatures', ex.new_list(st, []))
+        # who issued a signature is arbitrary (a subkey may carry a revocation by a designated revoker, an identity the certifications of
+        # others): whoever it names, it stays on the object it was read for
+        SPC = 'pgpy.packet.fields.SubPackets'
+        for p_ in pkts:
+            if p_.cls == CLS['S']:
+                r.set(p_.ref, 'subpackets', E.VObj(SPC, 'subpackets-of-' + p_.ref))
+        r.hook(SPC, '__contains__', scn.method_hook(lambda ex, st, o, a: [(st, E.VBool(z3.Bool('%s_has_%s' % (o.ref, getattr(a[0], 's', 'x')))))]))
+        r.hook(SIG, 'embedded', scn.const(E.VBool(False)))
+        r.hook(SIG, 'parent', scn.const(E.VNone()))
+        r.hook(SIG, 'signer_fingerprint', lambda ex, st, o, a: [(st, E.VStr(z=z3.Const('ISSUER_FINGERPRINT_NAMED_BY_%s' % o.ref, B)))])
+        r.hook(SIG, 'signer', lambda ex, st, o, a: [(st, E.VStr(z=z3.Const('ISSUER_KEY_ID_NAMED_BY_%s' % o.ref, B)))])
         r.hook(KEY, '__call__', mk(KEY, 'newkey'))
         r.hook(UID, '__call__', mk(UID, 'uid'))
         r.hook(SIG, '__call__', mk(SIG, 'sig'))
@@ -549,6 +563,11 @@ def key_parse(shape_name, shape):
             st.ghost['attached'] = st.ghost.get('attached', ()) + ((str(o.ref), str(a[0].ref) if isinstance(a[0], E.VObj) else repr(a[0])),)
             if isinstance(a[0], E.VObj) and a[0].cls in (CLS['K'], CLS['B'], CLS['k'], CLS['b']):
                 st.heap[(o.ref, '_key')] = a[0]
+            if isinstance(a[0], E.VObj) and o.cls == SIG:
+                st.heap[(o.ref, '_signature')] = a[0]
+            if isinstance(a[0], E.VObj) and a[0].cls == SIG and o.cls in (KEY, UID):
+                lst = st.heap[(o.ref, '_signatures')]
+                st.heap[lst.cell] = tuple(st.heap[lst.cell]) + (a[0],)
             return [(st, o)]
         for c in (KEY, UID, SIG):
             r.hook(c, '__or__', scn.method_hook(attach))
@@ -620,6 +639,13 @@ def key_parse(shape_name, shape):
                     child = 'uid%d' % ku2
                     ku2 += 1
                     r.oblige(s, 'identity-%s-filed-under-%s/p%d' % (child, cur, pi), z3.BoolVal((cur, child) in att))
+            # (2b) and stays there: at the end every key, subkey and identity holds exactly the signatures that were read for it, in order
+            holders = sorted({w[0] for w in want if not w[0].startswith('sig')})
+            for hname in holders:
+                lst = s.heap.get((hname, '_signatures'))
+                have = [str(x.ref) for x in s.heap[lst.cell]] if isinstance(lst, E.VList) else None
+                exp_s = [w[1] for w in want if w[0] == hname and w[1].startswith('sig')]
+                r.oblige(s, 'at-the-end-%s-holds-exactly-the-signatures-read-for-it(whoever-issued-them)/p%d' % (hname, pi), z3.BoolVal(have == exp_s))
             # (3) nothing else is attached anywhere, and dropped packets (trust, opaque) are attached nowhere
             extra = [a for a in att if a not in want and not any(a == (k, ch) for k in ['self'] + ['newkey%d' % j for j in range(8)] for ch in ['newkey%d' % j for j in range(8)] + ['uid%d' % j for j in range(8)])]
             r.oblige(s, 'nothing-else-attached/p%d' % pi, z3.BoolVal(not extra))
